@@ -36,9 +36,9 @@ ASSUMPTIONS = [
     "a HeterogeneousLinearModel applied at another resolution uses the nearest-neighbour (cv2.INTER_NEAREST) resampling of its original label map",
 ]
 FLOORS = {
-    "quick": {"two_live_objects": 400, "heterogeneous_update_history": 300, "labelwise_wrapper": 200, "clip": 300, "linear": 300, "combined_composition": 100, "combined_routing": 300, "heterogeneous_linear": 80, "heterogeneous_resolution_history": 100, "combined_routing_grouped": 100, "threshold": 150, "threshold_integer_signals": 500, "kernel_reproduces_values": 60, "kernel_values_updated": 100, "kernel_supports_replaced": 25, "heterogeneous_integer_signals": 150, "combined_with_labelwise_part": 150, "linear_models_on_images": 150, "threshold_3d_label_maps": 100, "combined_vector_valued_dof": 80, "kernel_advanced_updated": 15,
+    "quick": {"two_live_objects": 400, "parameter_buffer_reused": 150, "labelwise_wrapper_integer_signals": 200, "heterogeneous_update_history": 300, "labelwise_wrapper": 200, "clip": 300, "linear": 300, "combined_composition": 100, "combined_routing": 300, "heterogeneous_linear": 80, "heterogeneous_resolution_history": 100, "combined_routing_grouped": 100, "threshold": 150, "threshold_integer_signals": 500, "kernel_reproduces_values": 60, "kernel_values_updated": 100, "kernel_supports_replaced": 25, "heterogeneous_integer_signals": 150, "combined_with_labelwise_part": 150, "linear_models_on_images": 150, "threshold_3d_label_maps": 100, "combined_vector_valued_dof": 80, "kernel_advanced_updated": 15,
               "kernel_numba_equals_plain_sum": 150, "kernel_signals_on_8bit_scale": 8, "polynomial_span": 100},
-    "thorough": {"two_live_objects": 4000, "heterogeneous_update_history": 3000, "labelwise_wrapper": 2000, "clip": 3000, "linear": 3000, "combined_composition": 1000, "combined_routing": 3000, "heterogeneous_linear": 800, "heterogeneous_resolution_history": 1000, "combined_routing_grouped": 1000, "threshold": 1500, "threshold_integer_signals": 5000, "kernel_reproduces_values": 600, "kernel_values_updated": 1000, "kernel_supports_replaced": 250, "heterogeneous_integer_signals": 1500, "combined_with_labelwise_part": 1500, "linear_models_on_images": 1500, "threshold_3d_label_maps": 1000, "combined_vector_valued_dof": 800, "kernel_advanced_updated": 150,
+    "thorough": {"two_live_objects": 4000, "parameter_buffer_reused": 1500, "labelwise_wrapper_integer_signals": 2000, "heterogeneous_update_history": 3000, "labelwise_wrapper": 2000, "clip": 3000, "linear": 3000, "combined_composition": 1000, "combined_routing": 3000, "heterogeneous_linear": 800, "heterogeneous_resolution_history": 1000, "combined_routing_grouped": 1000, "threshold": 1500, "threshold_integer_signals": 5000, "kernel_reproduces_values": 600, "kernel_values_updated": 1000, "kernel_supports_replaced": 250, "heterogeneous_integer_signals": 1500, "combined_with_labelwise_part": 1500, "linear_models_on_images": 1500, "threshold_3d_label_maps": 1000, "combined_vector_valued_dof": 800, "kernel_advanced_updated": 150,
                  "kernel_numba_equals_plain_sum": 1500, "kernel_signals_on_8bit_scale": 80, "polynomial_span": 100},
 }
 SHARD_TIMEOUT = {"quick": 1500, "thorough": 7200}
@@ -204,6 +204,17 @@ def run_shard(spec, R):
 
             ok, out = R.guarded("labelwise_wrapper", para)
             if ok:
+                # integer-typed signals (counts) are signals like any other: same models, same regions
+                isig = rng.integers(0, 200, size=hshape).astype([np.uint8, np.uint16, np.int32][n % 3])
+                oki, outi = R.guarded("labelwise_wrapper", lambda: H(isig.copy()))
+                if oki:
+                    expi = np.zeros(hshape)
+                    for lv in hvals:
+                        expi[hlab == lv] = wref(hp[lv], isig.astype(float))[hlab == lv]
+                    R.check(np.shape(outi) == hshape and np.allclose(np.asarray(outi, float), expi, rtol=1e-12, atol=1e-12), "labelwise_wrapper",
+                            lambda: {**case, "what": "integer-typed signal", "signal_dtype": isig.dtype.name, "result_dtype": np.asarray(outi).dtype.name,
+                                     "max_deviation": float(np.max(np.abs(np.asarray(outi, float) - expi))) if np.shape(outi) == hshape else None}, group=wlabel + "/integer_signal")
+                    R.count("labelwise_wrapper_integer_signals")
                 out = np.asarray(out)
                 exp = np.zeros(hshape)
                 for lv in hvals:
@@ -393,10 +404,17 @@ def run_shard(spec, R):
                 hmc = darsia.HeterogeneousLinearModel(labels.astype(np.uint8), scaling=sc.copy(), offset=of.copy())
                 cmh = darsia.CombinedModel([hmc, partc])
                 pall = np.concatenate([rng.uniform(0.5, 2, size=nl), rng.uniform(-0.5, 0.5, size=nl), [-0.25, 0.75]])
-                okc, _ = R.guarded("combined_routing", lambda: cmh.update_model_parameters(pall.copy(), None), key=lambda e, w: "C14:combined_model_with_labelwise_part")
+                pbuf = pall.copy()  # the caller's parameter buffer: handed over, then re-used for something else
+                okc, _ = R.guarded("combined_routing", lambda: cmh.update_model_parameters(pbuf, None), key=lambda e, w: "C14:combined_model_with_labelwise_part")
                 if okc:
                     okc, outc = R.guarded("combined_routing", lambda: cmh(x.copy()))
                 if okc:
+                    pbuf[...] = rng.uniform(3.0, 4.0, size=pbuf.shape)
+                    okc2, outc2 = R.guarded("combined_routing", lambda: cmh(x.copy()))
+                    if okc2:
+                        R.check(np.array_equal(np.asarray(outc2), np.asarray(outc)), "combined_routing", {**case, "what": "the caller overwrote his parameter buffer after the update; the model was called again"},
+                                group="parameter_buffer_reused")
+                        R.count("parameter_buffer_reused")
                     expc = np.zeros(shp)
                     for li, v in enumerate(values):
                         expc[labels == v] = np.clip(pall[li] * x + pall[nl + li], -0.25, 0.75)[labels == v]
